@@ -17,7 +17,8 @@ from .model import AnalysisError
 
 class Scenario:
     def __init__(self, name, vtypes, edges, fixed=(), fix_first_pose=False, err_len=2, alias=None, symbolic_ids=False, identical_edges=False,
-                 int_flags=False):
+                 int_flags=False, same_object=()):
+        self.same_object = tuple(same_object)   # (i, j): entry j of the edge list is the very same edge object as entry i
         self.int_flags = int_flags   # the fixed flags are given as 1 / 0 (as the package's own tests do), not as True / False
         self.identical_edges = identical_edges   # all edges carry the same symbolic error / information / Jacobians (cheap for thousands of edges)
         self.name, self.vtypes, self.edges, self.fixed, self.ffp, self.err_len = name, vtypes, edges, set(fixed), fix_first_pose, err_len
@@ -40,6 +41,8 @@ SCENARIOS = [
     Scenario("isolated-fixed-vertex-first", ["PoseR3"] + BASE_V, [tuple(k + 1 for k in e) for e in BASE_E], fix_first_pose=True),
     Scenario("parallel-only", ["PoseSE2", "PoseSE2"], [(0, 1), (0, 1), (1, 0)], fix_first_pose=True),
     Scenario("parallel-free", ["PoseSE2", "PoseR2", "PoseSE2"], [(0, 2), (0, 2), (2, 0), (2, 0), (0, 2), (1, 0)]),
+    # the same edge object listed twice (e.g. `half = Edge(ids, 0.5 * info, z); edges += [half, half]`): every entry of the list counts
+    Scenario("same-edge-object-listed-twice", BASE_V, BASE_E + [BASE_E[0], BASE_E[4]], fix_first_pose=True, same_object=[(0, 5), (4, 6)]),
 ]
 
 # (first call, second call on the SAME graph object): nothing of the first assembly may survive into the second
@@ -149,6 +152,11 @@ def _build(it, scn):
             shared[tag] = (sym_vec("e%s" % tag, m), sym_symmetric("W%s" % tag, m), [sym_mat("J%s_%d" % (tag, k), m, dims[v]) for k, v in enumerate(vs)])
         err, W, Js = shared[tag]
         from .algebra import custom_edge
+        twin_of = [i for i, j in getattr(scn, "same_object", ()) if j == ei]
+        if twin_of:
+            edges.append(edges[twin_of[0]])
+            spec.append(spec[twin_of[0]])
+            continue
         e = custom_edge(it, [vid(v) for v in vs], W, None, None)
         e.stubs["calc_error"] = (lambda err=err: err)
         e.stubs["calc_jacobians"] = (lambda Js=Js: list(Js))
